@@ -383,6 +383,117 @@ def outside_links(binpath, res, seed, n):
             res.inconclusive.append(f"outside-links positive control rejected: {o['runs'][0].get('e')}")
 
 
+PATTERN_NAMES = [("pkg*", "pkg-other"), ("build?", "buildX"), ("rel[1]", "rel1"), ("a[!b]c", "axc"), ("x**y", "x-z-y"), ("plain", "plain-other")]
+
+
+def pattern_names(binpath, res, seed):
+    """step names that happen to contain characters a file-name pattern would interpret (`*`, `?`, `[..]`): the dedicated
+    directory of such a delegated step is the one that carries exactly its name; inner links lying in a sibling directory
+    whose name merely *matches* it as a pattern are outside evidence"""
+    rng = common.rng_for(seed, PROP, 4343)
+    W = scen.World(binpath)
+    reqs, plans = [], []
+    for name, sibling in PATTERN_NAMES:
+        for mode in ("control", "sibling_dir", "sibling_dir_dedicated_missing"):
+            kd, ka = rng.sample(FUNC, 2)
+            inner = scen.mk_layout(W, [ka], [scen.mk_step("compile", 1, [W.kid(ka)], [], [["ALLOW", "*"]], [["ALLOW", "*"]])], [])
+            top = scen.mk_layout(W, [kd], [scen.mk_step(name, 1, [W.kid(kd)], [], [["ALLOW", "*"]], [["ALLOW", "*"]])], [])
+            plans.append((name, sibling, mode, kd, ka, len(reqs)))
+            reqs.append((top, ["ed0"], "new"))
+            reqs.append((inner, [kd], "new"))
+            reqs.append((pipeline.leaf_link("compile", 0), [ka], "new"))
+    wires = scen.sign_all(binpath, reqs, nproc=1)
+    cases = []
+    for name, sibling, mode, kd, ka, b in plans:
+        d = f"{name}.{W.pfx(kd)}"
+        files = {f"{d}.link": scen.dumps(wires[b + 1])}
+        if mode == "control":
+            files[f"{d}/compile.{W.pfx(ka)}.link"] = scen.dumps(wires[b + 2])
+        else:
+            if mode == "sibling_dir":
+                files[f"{d}/.keep"] = "the dedicated directory exists"
+            files[f"{sibling}.{W.pfx(kd)}/compile.{W.pfx(ka)}.link"] = scen.dumps(wires[b + 2])
+        cases.append(scen.verify_case(wires[b], [[W.kid("ed0"), W.pub("ed0")]], files,
+                                      meta={"mode": "pattern_name:" + mode, "name": name, "expect": "either" if mode == "control" else "reject"}))
+    obs = common.run_batch(binpath, cases)
+    for c, o in zip(cases, obs):
+        if scen.harness_failed(o):
+            res.inconclusive.append(f"executor failure: {str(o)[:200]}")
+            continue
+        m = c["meta"]
+        ok = o["runs"][0]["v"] == "ok"
+        res.note([c["layout"], sorted(c["files"])], True, cls=[f"mode:{m['mode']}", f"mode:{m['mode']}:" + ("accepted" if ok else "rejected")])
+        if ok and m["expect"] == "reject" and m["name"] != "plain":
+            res.violate(f"accept:{m['mode']}", f"the sub-layout of step {m['name']!r} was satisfied by link files from a directory that is not its dedicated one "
+                        f"(files {sorted(c['files'])})", c, o, "reject")
+        if ok and m["expect"] == "reject" and m["name"] == "plain":
+            res.violate(f"accept:{m['mode']}:plain_name", f"a sub-layout was satisfied by link files from a sibling directory (files {sorted(c['files'])})", c, o, "reject")
+        if not ok and m["name"] == "plain" and m["mode"] == "pattern_name:control":
+            res.inconclusive.append(f"pattern-names positive control rejected: {o['runs'][0].get('e')}")
+
+
+def inspection_named_like_step(binpath, res, seed):
+    """names need not be unique: an inspection may carry the name of the layout's first or last step.  The summary is
+    still made of the *steps'* evidence - the inspection's own link (what it found in the working directory, its command,
+    its output) is no part of it - at the top level and for a sub-layout's contribution alike"""
+    rng = common.rng_for(seed, PROP, 4444)
+    W = scen.World(binpath)
+    reqs, plans = [], []
+    for level in ("top", "delegated"):
+        for like in ("last", "first", "only", "none"):
+            for sn in (None, "final"):
+                kd, ka, kb = rng.sample(FUNC, 3)
+                names = ["compile"] if like == "only" else ["fetch", "compile"]
+                iname = {"last": names[-1], "first": names[0], "only": names[0], "none": "check"}[like]
+                steps = [scen.mk_step(nm, 1, [W.kid(ka)], [], [["ALLOW", "*"]], [["ALLOW", "*"]]) for nm in names]
+                insp = [scen.mk_inspection(iname, ["sh", "-c", "echo found > inspected.txt; echo noise"], [["ALLOW", "*"]], [["ALLOW", "*"]])]
+                inner = scen.mk_layout(W, [ka], steps, insp)
+                b = len(reqs)
+                if level == "top":
+                    reqs.append((inner, ["ed0"], "new"))
+                    reqs.append((inner, ["ed0"], "new"))
+                else:
+                    top = scen.mk_layout(W, [kd], [scen.mk_step("build", 1, [W.kid(kd)], [], [["ALLOW", "*"]], [["ALLOW", "*"]])], [])
+                    reqs.append((top, ["ed0"], "new"))
+                    reqs.append((inner, [kd], "new"))
+                docs = [pipeline.leaf_link(nm, j) for j, nm in enumerate(names)]
+                for d in docs:
+                    reqs.append((d, [ka], "new"))
+                plans.append((level, like, sn, kd, ka, names, docs, b))
+    wires = scen.sign_all(binpath, reqs, nproc=1)
+    cases = []
+    for level, like, sn, kd, ka, names, docs, b in plans:
+        pre = f"build.{W.pfx(kd)}/" if level == "delegated" else ""
+        files = {pre + f"{nm}.{W.pfx(ka)}.link": scen.dumps(wires[b + 2 + j]) for j, nm in enumerate(names)}
+        if level == "delegated":
+            files[f"build.{W.pfx(kd)}.link"] = scen.dumps(wires[b + 1])
+        want = {"materials": docs[0]["materials"], "products": docs[-1]["products"], "command": docs[-1]["command"],
+                "byproducts": docs[-1]["byproducts"], "name": sn or ""}
+        cases.append(scen.verify_case(wires[b], [[W.kid("ed0"), W.pub("ed0")]], files, work_files={"pre.txt": "x\n"}, step_name=sn,
+                                      meta={"level": level, "like": like, "want": want}))
+    obs = common.run_batch(binpath, cases)
+    for c, o in zip(cases, obs):
+        m = c["meta"]
+        if scen.harness_failed(o):
+            res.inconclusive.append(f"executor failure: {str(o)[:200]}")
+            continue
+        r = o["runs"][0]
+        res.note([c["layout"], sorted(c["files"])], True, cls=[f"inspection_named_like_step:{m['like']}:{m['level']}", "inspection_named_like_step:" + r["v"]])
+        if r["v"] != "ok":
+            if m["like"] == "none":
+                res.inconclusive.append(f"inspection_named_like_step control rejected: {r.get('e')}")
+            continue
+        sg = r["summary"]["signed"]
+        for fld in ("materials", "products", "command", "byproducts", "name"):
+            got = sg.get(fld)
+            if norm(got) != norm(m["want"][fld]):
+                res.violate(f"summary-differs:{fld}:inspection_named_like_{m['like']}_step:{m['level']}",
+                            f"the returned summary's {fld} are not those of the layout's {'first' if fld == 'materials' else 'last'} step "
+                            f"(an inspection carries the name of the {m['like']} step): got {json.dumps(got)[:300]}, expected {json.dumps(m['want'][fld])[:300]}",
+                            c, o, m["want"])
+                break
+
+
 def expiry_history(binpath, res, seed):
     """one process: a delegation tree whose sub-layout is still valid verifies; another verification fails; real time passes
     until the sub-layout's expiry is over; the tree is verified again (also one with the same shape that was never verified
@@ -427,6 +538,86 @@ def expiry_history(binpath, res, seed):
                         f"before the call ({m['mode']})", c, o, "reject")
 
 
+def surplus_inner_links(binpath, res, seed, n):
+    """a (sub-)layout whose first / last step has two authorised functionaries and threshold 1, each with a valid link, and
+    the links differ: one of them records an artifact the step's own rules disallow.  Which link stands for the step is the
+    implementation's choice - but the evidence handed upwards (and returned) is that of a link which passed the step's
+    rules: the disallowed artifact never shows up in a summary"""
+    import pipeline
+    rng = common.rng_for(seed, PROP, 6600)
+    W = scen.World(binpath)
+    POOL = ["ed2", "ed3", "ed4", "ed5", "ed6", "edp1", "edp2", "ec-b"]
+    plans, reqs = [], []
+    for i in range(n):
+        f, k1, a, b = rng.sample(POOL, 4)
+        where = rng.choice(["last_products", "first_materials"])
+        level = rng.choice(["delegated", "delegated", "top"])
+        bad_is = rng.choice(["smaller_id", "larger_id"])
+        lo, hi = sorted([a, b], key=lambda k: W.kid(k))
+        bad = lo if bad_is == "smaller_id" else hi
+        rule_m = [["DISALLOW", "backdoor.so"], ["ALLOW", "*"]] if where == "first_materials" else [["ALLOW", "*"]]
+        rule_p = [["DISALLOW", "backdoor.so"], ["ALLOW", "*"]] if where == "last_products" else [["ALLOW", "*"]]
+        if where == "last_products":
+            st = [scen.mk_step("fetch", 1, [W.kid(k1)], [], [["ALLOW", "*"]], [["ALLOW", "*"]]),
+                  scen.mk_step("compile", 1, [W.kid(a), W.kid(b)], [], [["ALLOW", "*"]], rule_p)]
+            multi, single, mi = "compile", "fetch", 1
+        else:
+            st = [scen.mk_step("fetch", 1, [W.kid(a), W.kid(b)], [], rule_m, [["ALLOW", "*"]]),
+                  scen.mk_step("compile", 1, [W.kid(k1)], [], [["ALLOW", "*"]], [["ALLOW", "*"]])]
+            multi, single, mi = "fetch", "compile", 0
+        inner = scen.mk_layout(W, [k1, a, b], st, [])
+        good_doc = pipeline.leaf_link(multi, mi)
+        bad_doc = copy.deepcopy(good_doc)
+        bad_doc["materials" if where == "first_materials" else "products"]["backdoor.so"] = scen.digest(0x6b)
+        base = len(reqs)
+        if level == "delegated":
+            outer = scen.mk_layout(W, [f], [scen.mk_step("build", 1, [W.kid(f)], [], [["ALLOW", "*"]], [["ALLOW", "*"]])], [])
+            reqs.append((outer, ["ed0"], "new"))
+            reqs.append((inner, [f], "new"))
+        else:
+            reqs.append((inner, ["ed0"], "new"))
+            reqs.append((inner, ["ed0"], "new"))
+        reqs.append((pipeline.leaf_link(single, 1 - mi), [k1], "new"))
+        reqs.append((good_doc if bad != a else bad_doc, [a], "new"))
+        reqs.append((good_doc if bad != b else bad_doc, [b], "new"))
+        plans.append((base, level, where, bad_is, f, k1, a, b, multi, single))
+    wires = scen.sign_all(binpath, reqs, nproc=1)
+    cases = []
+    for base, level, where, bad_is, f, k1, a, b, multi, single in plans:
+        pre = f"build.{W.pfx(f)}/" if level == "delegated" else ""
+        files = {pre + f"{single}.{W.pfx(k1)}.link": scen.dumps(wires[base + 2]),
+                 pre + f"{multi}.{W.pfx(a)}.link": scen.dumps(wires[base + 3]),
+                 pre + f"{multi}.{W.pfx(b)}.link": scen.dumps(wires[base + 4])}
+        if level == "delegated":
+            files[f"build.{W.pfx(f)}.link"] = scen.dumps(wires[base + 1])
+        sn = rng.choice([None, "release"])
+        cases.append(scen.verify_case(wires[base], [[W.kid("ed0"), W.pub("ed0")]], files, reps=12, step_name=sn,
+                                      meta={"level": level, "where": where, "bad_is": bad_is}))
+    obs = common.run_batch(binpath, cases)
+    for c, o in zip(cases, obs):
+        m = c["meta"]
+        if scen.harness_failed(o):
+            res.inconclusive.append(f"executor failure: {str(o)[:200]}")
+            continue
+        oks, leaked, last = 0, 0, None
+        for r in o["runs"]:
+            if r["v"] != "ok":
+                continue
+            oks += 1
+            sm = r["summary"] if r["summary"] != "=" else last
+            last = sm
+            sg = sm["signed"]
+            if "backdoor.so" in sg["materials"] or "backdoor.so" in sg["products"]:
+                leaked += 1
+        if leaked:
+            res.violate(f"summary-carries-evidence-that-failed-the-rules:{m['level']}:{m['where']}",
+                        f"{leaked} of {oks} successful verifications returned a summary containing 'backdoor.so', which the "
+                        f"{'sub-' if m['level'] == 'delegated' else ''}layout's own rule for that step disallows (the link of the functionary with the "
+                        f"{m['bad_is'].replace('_', ' ')} records it; threshold 1, two authorised links)", c, o, "summary of rule-checked evidence")
+        res.note([c["layout"], sorted(c["files"])], True, cls=[f"surplus_inner_links:{m['level']}:{m['where']}", f"surplus_inner_links:bad_has_{m['bad_is']}",
+                                                               "surplus_inner_links:" + ("accepted" if oks else "rejected")], n=len(o["runs"]))
+
+
 def main(ctx):
     res = common.Result()
     n = 50 if not ctx.thorough else 2500
@@ -444,6 +635,9 @@ def main(ctx):
         o = common.run_batch(ctx.bin, [c])[0]
         judge(c, o, res)
         res.note(["empty", nm], True, cls="mode:empty_layout")
+    pattern_names(ctx.bin, res, ctx.seed)
+    inspection_named_like_step(ctx.bin, res, ctx.seed)
+    surplus_inner_links(ctx.bin, res, ctx.seed, 24 if not ctx.thorough else 400)
     return common.finish(
         PROP, ctx.tier, ctx.seed, res, t0=ctx.t0,
         rule="delegation trees of depth 1-3 (inner layouts with 1-3 steps, nested delegation with probability 0.6 per "
@@ -453,7 +647,7 @@ def main(ctx):
              "the contributed last product; positive controls compare the returned summary link exactly; every "
              "scenario is non-trivial; distinct by (layout, directory)",
         assumptions=["ground truth by construction; summary computed from the descriptor"],
-        required=["positive_control_accepted", "mode:key_of_other_step", "mode:inner_inspection_fails", "mode:inner_inspection_passes", "positive_at_tree_depth:1", "positive_at_tree_depth:2",
+        required=["inspection_named_like_step:last:top", "inspection_named_like_step:first:delegated", "inspection_named_like_step:ok", "mode:pattern_name:control:accepted", "mode:pattern_name:sibling_dir:rejected", "surplus_inner_links:accepted", "surplus_inner_links:delegated:last_products", "surplus_inner_links:delegated:first_materials", "surplus_inner_links:top:last_products", "positive_control_accepted", "mode:key_of_other_step", "mode:inner_inspection_fails", "mode:inner_inspection_passes", "positive_at_tree_depth:1", "positive_at_tree_depth:2",
                   "positive_at_tree_depth:3", "mode:wrong_signer", "mode:unauth_key", "mode:inner_expired",
                   "mode:inner_link_missing", "mode:links_in_parent_dir", "mode:links_in_other_key_dir",
                   "mode:parent_disallows_summary_product", "mode:parent_requires_summary_product", "mode:inner_rule_fail",
